@@ -176,10 +176,12 @@ class Gen:
                 if r.random() < 0.5:
                     return "%s.len()" % self.recv(s)
                 return "%s.find(%s)" % (self.recv(s), self.expr(STR, depth + 2))
-            if k < 0.94:
+            if k < 0.93:
                 a = self.arr_var()
                 if a:
                     return "%s.len()" % a.name
+            if k < 0.95:
+                return "%s.to_number()" % r.choice(['"12.5"', '"-3"', '"1e3"', '" 7"', '"abc"', '"0.1"', '".5"', '"inf"', '"9007199254740993"', '"1_000"', '"+4.25E-2"', '""'])
             return self.call_or(NUM, depth)
         if ty == STR:
             if k < 0.3:
@@ -199,7 +201,7 @@ class Gen:
                 if m == "replace":
                     return "%s.replace(%s, %s)" % (s, self.expr(STR, depth + 2), self.expr(STR, depth + 2))
                 if m in ("to_uppercase", "to_lowercase"):
-                    return "%s.%s()" % (self.recv(r.choice(['"abcXYZ"', '"MiXed 12"', '"naija"'])), m)
+                    return "%s.%s()" % (self.recv(r.choice(['"abcXYZ"', '"MiXed 12"', '"naija"', '"Straße é"', '"ΑΣ ΟΔΥΣΣΕΥΣ"', '"İstanbul ǅ"', '"世界 ok"'])), m)
                 return "%s.trim()" % s
             if k < 0.82:
                 return "to_string(%s)" % self.expr(r.choice([NUM, BOOL, STR, NULL]), depth + 1)
